@@ -34,7 +34,7 @@ def derive_seed(base, prop, shard, salt=''):
 def ensure_driver():
     """simrt + simcheck do not depend on /repo; built by setup, rebuilt here only if missing or stale."""
     os.makedirs(BIN, exist_ok=True)
-    srcs = [f'{V}/sim/rt/simrt.cc', f'{V}/sim/driver/simcheck.cc', f'{V}/sim/rt/simrt_c.h', f'{V}/sim/rt/simrt.h', f'{V}/sim/interp/interp.h']
+    srcs = [f'{V}/sim/driver/simfuzz.cc', f'{V}/sim/rt/simrt.cc', f'{V}/sim/driver/simcheck.cc', f'{V}/sim/rt/simrt_c.h', f'{V}/sim/rt/simrt.h', f'{V}/sim/interp/interp.h']
     out = f'{BIN}/simcheck'
     if os.path.exists(out) and all(os.path.getmtime(out) >= os.path.getmtime(s) for s in srcs):
         return
@@ -48,12 +48,18 @@ def ensure_driver():
     r = sh(f'g++ -rdynamic -o {out} {BIN}/simcheck.o {BIN}/simrt.o -lrapidcheck -ldl')
     if r.returncode != 0:
         print(r.stdout); sys.exit(2)
+    r = sh(f'clang++ -std=gnu++17 -O2 -g -fsanitize=fuzzer -I{V}/sim/rt {V}/sim/driver/simfuzz.cc {V}/sim/rt/simrt.cc -rdynamic -ldl -o {BIN}/simfuzz')
+    if r.returncode != 0:
+        print(r.stdout); sys.exit(2)
 
 
-def build_sim(pid, flavour):
-    out = f'{WORK}/{pid}/sim_{flavour}'
+def build_sim(pid, flavour, fuzz=False):
+    out = f'{WORK}/{pid}/sim_{flavour}' + ('_fuzz' if fuzz else '')
     shutil.rmtree(out, ignore_errors=True)
-    r = sh(f'{V}/tools/build_sim.sh {flavour} {out}', env=dict(os.environ, VERIF_REPO=REPO, VERIF_ROOT=V))
+    env = dict(os.environ, VERIF_REPO=REPO, VERIF_ROOT=V)
+    if fuzz:
+        env['SIM_FUZZ'] = '1'
+    r = sh(f'{V}/tools/build_sim.sh {flavour} {out}', env=env)
     if r.returncode != 0:
         print(r.stdout)
         print(f'check.py: building the simulated nsync ({flavour}) from {REPO} failed')
@@ -216,6 +222,65 @@ def run_sim_property(pid, tier, seed, embedded=False):
     for sig, n in hists.get('suppressed_by_known_finding', {}).items():
         known_seen[sig] = known_seen.get(sig, 0) + n
 
+    # 3. coverage-guided burst: libFuzzer over the same tapes, feedback from nsync's own edges
+    fuzz_stats = dict(processes=0, runs=0, nontrivial_executions=0, suppressed=0, corpus_units_added=0)
+    if not violations and cfg.get('fuzz', True):
+        so_f = build_sim(pid, 'gcc_new', fuzz=True)
+        nf = 4 if tier == 'quick' else NPROC
+        runs = cfg.get('fuzz_runs_quick', 120000) if tier == 'quick' else cfg.get('fuzz_runs_thorough', 6000000)
+        fprocs = []
+        famlist = [f for (f, w) in cfg['sim'] for _ in range(w)]
+        for k in range(nf):
+            fdir = f'{wdir}/fuzz_{k}'; shutil.rmtree(fdir, ignore_errors=True); os.makedirs(f'{fdir}/corpus'); os.makedirs(f'{fdir}/art')
+            env = dict(os.environ, SIMFUZZ_SO=so_f, SIMFUZZ_PROP=str(cfg['num']))
+            fam = famlist[k % len(famlist)]
+            if fam is not None:
+                env['SIMFUZZ_FAMILY'] = str(FAM[fam])
+            if suppress:
+                env['SIMFUZZ_SUPPRESS'] = suppress
+            cmd = [f'{BIN}/simfuzz', f'-runs={runs}', f'-seed={derive_seed(seed, pid, k, "fuzz")}', '-max_len=400', '-handle_segv=0', '-handle_bus=0', '-handle_ill=0', '-handle_fpe=0',
+                   '-timeout=60', f'-artifact_prefix={fdir}/art/', '-print_final_stats=1', f'{fdir}/corpus']
+            if os.path.isdir(f'{V}/corpus/{pid}'):
+                cmd.append(f'{V}/corpus/{pid}')
+            fprocs.append((k, fam, fdir, subprocess.Popen(cmd, env=env, stdout=open(f'{fdir}/log', 'w'), stderr=subprocess.STDOUT)))
+        for (k, fam, fdir, p) in fprocs:
+            try:
+                p.wait(timeout=max(60, deadline - time.time()))
+            except subprocess.TimeoutExpired:
+                p.kill()
+            log = open(f'{fdir}/log', errors='replace').read()
+            fuzz_stats['processes'] += 1
+            for line in log.splitlines():
+                if line.startswith('stat::number_of_executed_units:'):
+                    fuzz_stats['runs'] += int(line.split()[-1])
+                if line.startswith('stat::new_units_added:'):
+                    fuzz_stats['corpus_units_added'] += int(line.split()[-1])
+                if line.startswith('SIMFUZZ-STATS'):
+                    kv = dict(x.split('=') for x in line.split()[1:])
+                    fuzz_stats['nontrivial_executions'] = fuzz_stats.get('_nt', 0) + int(kv['nontrivial']); fuzz_stats['_nt'] = fuzz_stats['nontrivial_executions']
+                    fuzz_stats['suppressed'] = fuzz_stats.get('_sp', 0) + int(kv['suppressed']); fuzz_stats['_sp'] = fuzz_stats['suppressed']
+            # only crash-* artifacts are violations; timeout-/oom-/slow-unit- are load noise
+            for art in glob.glob(f'{fdir}/art/crash-*'):
+                cmd = [f'{BIN}/simcheck', '--so', sos['gcc_new'], '--prop', str(cfg['num']), '--replay', art, '--out', f'{wdir}/fuzzreplay.json']
+                if fam is not None:
+                    cmd += ['--family', str(FAM[fam])]
+                if suppress:
+                    cmd += ['--suppress', suppress]
+                if os.path.exists(f'{wdir}/fuzzreplay.json'):
+                    os.remove(f'{wdir}/fuzzreplay.json')
+                rr = subprocess.run(cmd, stdout=subprocess.PIPE, stderr=subprocess.STDOUT, text=True, timeout=600)
+                if not os.path.exists(f'{wdir}/fuzzreplay.json'):
+                    nondeterministic.append((f'fuzz{k}', 'the harness itself died on a fuzzer input: ' + rr.stdout.strip()[-200:]))
+                    shutil.copy(art, f'{wdir}/harness_crash.tape')
+                    continue
+                res = json.load(open(f'{wdir}/fuzzreplay.json'))
+                if res['owned'] and not res['known'] and res['deterministic'] == 3:
+                    violations.append(dict(sig=res['sig'], msg=res['msg'], tape=open(art, 'rb').read(), dump=res['dump'], source=f'libFuzzer process {k}', family=(FAM[fam] if fam else None)))
+                elif not res['owned']:
+                    nondeterministic.append((f'fuzz{k}', 'crash artifact does not reproduce as an owned verdict: ' + res['sig']))
+        fuzz_stats.pop('_nt', None); fuzz_stats.pop('_sp', None)
+        merged['evaluations'] += fuzz_stats['runs']
+
     if nondeterministic:
         print(f'check.py: shard(s) reported a failure that did not replay 3/3 ({nondeterministic[:3]}): harness nondeterminism, the check is broken (exit 2)')
         return 2
@@ -234,7 +299,7 @@ def run_sim_property(pid, tier, seed, embedded=False):
                             samples=samples[:4] if samples else ['(no non-trivial sample captured)'], exhaustive=False,
                             regression_tapes_replayed=regress_n, foreign_verdicts=merged['foreign'], inconclusive_step_budget=merged['budget'],
                             inconclusive_shards=inconclusive, excluded_from_strict_oracle=merged['excluded'],
-                            excluded_by_known_finding=merged['suppressed'], totals=totals, histograms=hists, atomic_flavours=flavours),
+                            excluded_by_known_finding=merged['suppressed'] + fuzz_stats['suppressed'], libfuzzer=fuzz_stats, totals=totals, histograms=hists, atomic_flavours=flavours),
               assumptions=['simulated platform layer (fibers, virtual clock, modelled futex / native semaphores) stands in for the real one',
                            'values are sequentially consistent; ordering is tracked by the vector-clock engine only',
                            'bounded programs (<=6 threads, <=3 sections each) and sampled schedules: exploration, not proof'],
